@@ -197,6 +197,33 @@ def check(rep, F, tier, replay=None):
                 rep.violation("DEDUP-prim", "collect|%s" % what, "PlutusWitnesses::collect no longer de-duplicates %s with an ordered-set insert: required witnesses can be dropped (equal by a weaker test) or repeated" % what, {})
         if other:
             rep.violation("DEDUP-prim", "collect|weak|%s" % ",".join(sorted(set(H.short(o) for o in other))), "PlutusWitnesses::collect tests membership with %s: a weaker equality than the witness set's own (datums with equal value but different preserved bytes would be merged although both hashes are required)" % sorted(set(H.short(o) for o in other)), {})
+    # WIT-stored: a script witness handed to the voting builder is the one that is used
+    import mustpass as mp
+    rep.rule("WIT-stored", "VotingBuilder::add_with_plutus_witness / add_with_native_script store the witness they are given into the voter's entry on every Ok path (a field store that dominates the Ok return), not only as the default of an or_insert that is skipped when the voter already has an entry")
+    VV = [a for a in F.adts if a.endswith("voting_builder::VoterVotes")]
+    for key in ("VotingBuilder::add_with_plutus_witness", "VotingBuilder::add_with_native_script"):
+        fid_ = find_fn(rep, F, key)
+        if not fid_ or len(VV) != 1:
+            continue
+        rep.inst("WIT-stored")
+        fn_ = F.fns[fid_]
+        ffs_ = ff.FnFields(F, fid_)
+        org_ = ff.Origins(F, fid_)
+        st_ = ffs_.stores_to(VV[0], "script_witness")
+        oks = [b for b, k, l in mp.success_stores(F, fid_) if k == "ok"]
+        good = False
+        for s_ in st_:
+            rv = s_[4]
+            o_ = set()
+            if isinstance(rv, list) and rv[0] == "use":
+                o_ = org_.of_operand(rv[1])
+            elif isinstance(rv, list) and rv[0] == "agg":
+                for op_ in rv[4]:
+                    o_ |= org_.of_operand(op_)
+            if "arg:5" in o_ and all(mp.dominated_by(fn_, b, s_[2]) for b in oks):
+                good = True
+        if not good:
+            rep.violation("WIT-stored", key, "%s hands its witness only to `entry(voter).or_insert(..)`: when the voter already has an entry (a second vote of the same voter) the new witness - its script, datum, redeemer, declared signers, reference input - is silently dropped while the call returns Ok" % key, {})
     # DATUM-id: the ordered-set de-duplication is only right because PlutusData's Ord tells different encodings apart
     rep.rule("DATUM-id", "PlutusData's Ord (the relation every datum de-duplication uses) compares the preserved original bytes as well as the value: a datum is identified on chain by the hash of its bytes")
     pd = [a for a in F.adts if a.endswith("plutus_data::PlutusData")]
